@@ -23,7 +23,18 @@ def models(ctx, cfg):
     cache = ctx.__dict__.setdefault('_genmodels', {})
     if cfg not in cache:
         out = []
-        for d in ctx.gen(cfg):
+        if cfg.startswith('fx:'):
+            import facts, json, os
+            name = cfg[3:]
+            backend = 'sm' if ('sm' in name.split('_')[0] or name.startswith('g8') or name.endswith('_sm')) else 'tail'
+            defs = []
+            with open(os.path.join(facts.fixture_gen(ctx.hash), name + '.jsonl')) as f:
+                for line in f:
+                    if line.strip():
+                        defs.append(genlib.Definition(json.loads(line), backend))
+        else:
+            defs = ctx.gen(cfg)
+        for d in defs:
             if d.rejected:
                 out.append((d, None, None))
                 continue
@@ -34,7 +45,7 @@ def models(ctx, cfg):
 
 
 def dkey(d):
-    return '%s:%s:%s' % (d.label, d.module, d.self_ty)
+    return '%s:%s:%s' % ('fixture' if d.label.startswith('fixture-') else d.label, d.module, d.self_ty)
 
 
 def base_checks(ctx, rep, cfgs, rid_prefix='G'):
@@ -671,6 +682,7 @@ def rules_c02(ctx, rep):
     rule_graph(ctx, rep, cfgs, want=('G6b',))
     rule_transitions(ctx, rep, cfgs, want=('G2',))
     rule_shape_coverage(ctx, rep, cfgs)
+    controls(ctx, rep, ['G6a', 'G2'])
 
 
 def rules_c03(ctx, rep):
@@ -682,6 +694,7 @@ def rules_c03(ctx, rep):
     rule_records(ctx, rep, cfgs, want=('G10',))
     rule_action_dispatch(ctx, rep, cfgs)
     rule_shape_coverage(ctx, rep, cfgs)
+    controls(ctx, rep, ['G1', 'G4', 'G9c', 'G10', 'G11'])
 
 
 def rules_c05(ctx, rep):
@@ -722,7 +735,10 @@ def rules_c06(ctx, rep):
     cfgs = configs(ctx)
     base_checks(ctx, rep, cfgs)
     rule_backends(ctx, rep, (cfgs[0], cfgs[1]))
+    extra = dict(rep.extra)
     rule_shape_coverage(ctx, rep, cfgs)
+    controls(ctx, rep, ['G8'])
+    rep.extra.update(extra)
 
 
 def rules_c07(ctx, rep):
@@ -730,6 +746,7 @@ def rules_c07(ctx, rep):
     base_checks(ctx, rep, cfgs)
     rule_partial(ctx, rep, cfgs)
     rule_shape_coverage(ctx, rep, cfgs)
+    controls(ctx, rep, ['G5'])
 
 
 def rules_c13(ctx, rep):
@@ -738,6 +755,7 @@ def rules_c13(ctx, rep):
     rule_action_dispatch(ctx, rep, cfgs)
     rule_leaf_arms(ctx, rep, cfgs)
     rule_records(ctx, rep, cfgs, want=('G10',))
+    controls(ctx, rep, ['G9c', 'G10'])
 
 
 def rules_c20(ctx, rep):
@@ -746,6 +764,7 @@ def rules_c20(ctx, rep):
     rule_transitions(ctx, rep, cfgs, want=('G1', 'G2', 'G12'))
     rule_fast_loops(ctx, rep, cfgs)
     rule_shape_coverage(ctx, rep, cfgs)
+    controls(ctx, rep, ['G1', 'G2', 'G11'])
 
 
 # ------------------------------------------------------------------------------------------------
@@ -802,3 +821,51 @@ def rules_c12(ctx, rep):
 def rules_c18(ctx, rep):
     cfgs = configs(ctx)
     rule_twins(ctx, rep, cfgs, 'G13', 'permutation twins: every permutation of the named arguments of #[regex] / #[token] / skip(...) (with and without positional callback) and of the items of one #[logos(...)] attribute is accepted and generates token-identical code', 'perms::', floor=12)
+
+
+
+# ------------------------------------------------------------------------------------------------
+# positive controls: hand-broken generated lexers (fixtures/gen) must make each rule fire; the unbroken base must not
+# ------------------------------------------------------------------------------------------------
+
+CONTROLS = {
+    'G1': ('g1_no_consume', lambda c, r, cfgs: rule_transitions(c, r, cfgs, want=('G1',))),
+    'G2': ('g2_backwards', lambda c, r, cfgs: rule_transitions(c, r, cfgs, want=('G2',))),
+    'G4': ('g4_root_eoi', lambda c, r, cfgs: rule_graph(c, r, cfgs, want=('G4',))),
+    'G5': ('g5_no_guard', lambda c, r, cfgs: rule_partial(c, r, cfgs)),
+    'G6a': ('g6a_error_end', lambda c, r, cfgs: rule_error_action(c, r, cfgs)),
+    'G9c': ('g9c_no_trivia', lambda c, r, cfgs: rule_action_dispatch(c, r, cfgs)),
+    'G10': ('g10_record_ahead', lambda c, r, cfgs: rule_records(c, r, cfgs, want=('G10',))),
+    'G11': ('g11_chunk_advance', lambda c, r, cfgs: rule_fast_loops(c, r, cfgs)),
+}
+
+
+def controls(ctx, rep, rids):
+    import core
+    crid = rep.rule('G-controls', 'positive controls: each generated-code rule fires on its hand-broken lexer in fixtures/gen and stays silent on the unbroken base lexers')
+    for rid in rids:
+        if rid in CONTROLS:
+            name, run = CONTROLS[rid]
+            probe = core.Report(rep.pid, rep.tier)
+            run(ctx, probe, ['fx:' + name])
+            fired = rid in probe.rules and bool(probe.rules[rid]['violations'])
+            rep.inst(crid, '%s:%s' % (rid, name))
+            rep.control(crid, '%s on fixtures/gen/%s.rs' % (rid, name), fired)
+            quiet = core.Report(rep.pid, rep.tier)
+            run(ctx, quiet, ['fx:base_tail', 'fx:base_sm'])
+            if rid in quiet.rules and quiet.rules[rid]['violations']:
+                rep.viol(crid, 'control-false-alarm:%s' % rid, 'rule %s fires on the unbroken base lexers: %s' % (rid, quiet.rules[rid]['violations'][0]['msg'][:160]))
+        elif rid == 'G8':
+            probe = core.Report(rep.pid, rep.tier)
+            rule_backends(ctx, probe, ('fx:base_tail', 'fx:g8_sm_other_edge'))
+            rep.inst(crid, 'G8a:g8_sm_other_edge')
+            rep.control(crid, 'G8a on base_tail.rs vs g8_sm_other_edge.rs', bool(probe.rules['G8a']['violations']))
+            probe = core.Report(rep.pid, rep.tier)
+            rule_backends(ctx, probe, ('fx:base_tail', 'fx:g8b_reenter'))
+            rep.inst(crid, 'G8b:g8b_reenter')
+            rep.control(crid, 'G8b on g8b_reenter.rs', bool(probe.rules['G8b']['violations']))
+            quiet = core.Report(rep.pid, rep.tier)
+            rule_backends(ctx, quiet, ('fx:base_tail', 'fx:base_sm'))
+            bad = quiet.rules['G8a']['violations'] + quiet.rules['G8b']['violations']
+            if bad:
+                rep.viol(crid, 'control-false-alarm:G8', 'the back end comparison fires on the unbroken base pair: %s' % bad[0]['msg'][:160])
